@@ -180,3 +180,38 @@ func vhC28Quote() {
 	d2 := AppendUnquotedArg(nil, q)
 	vAssert("append-unquoted", c28Eq(d2, x))
 }
+
+// vhC28AfterAdds: N Add calls with symbolic keys and values build an arbitrary
+// small multimap state; one more operation (Del / Set / SetNoValue / Add) with
+// a symbolic key is applied; all observers must agree with the model. This is
+// where order preservation under deletion is decided.
+func vhC28AfterAdds() {
+	N := vLen("entries", 0, vParam("entries", 3))
+	var a Args
+	var m []c28KV
+	for i := 0; i < N; i++ {
+		k := vBytes("k", 1)
+		v := vBytes("v", 1)
+		a.AddBytesKV(k, v)
+		m = c28Add(m, k, v, false)
+	}
+	k := vBytes("opkey", 1)
+	switch vChoose("op", 4) {
+	case 0:
+		a.DelBytes(k)
+		m = c28Del(m, k)
+	case 1:
+		v := vBytes("opval", 1)
+		a.SetBytesKV(k, v)
+		m = c28Set(m, k, v, false)
+	case 2:
+		a.SetBytesKNoValue(k)
+		m = c28Set(m, k, nil, true)
+	case 3:
+		v := vBytes("opval", 1)
+		a.AddBytesKV(k, v)
+		m = c28Add(m, k, v, false)
+	}
+	probe := vBytes("probe", 1)
+	c28Check(&a, m, probe)
+}
